@@ -7,6 +7,7 @@ import (
 	"time"
 
 	xmpp "gosrc.io/xmpp"
+	"gosrc.io/xmpp/stanza"
 )
 
 // C04 — no credentials or stanzas without verified TLS unless insecure mode
@@ -18,12 +19,14 @@ type c04Conn struct {
 }
 
 type c04Scenario struct {
-	WSAddr    string     `json:"websocket_address,omitempty"` // the WebSocket sub-scenario: a server that only speaks clear-text XMPP over WebSocket
-	Client    ClientOpts `json:"client"`
-	Conns     []c04Conn  `json:"connections"`
-	Seg       int        `json:"segmentation"`
-	LatencyNs int64      `json:"latency_ns"`
-	NoRoutes  bool       `json:"application_registers_no_route,omitempty"` // unhandled IQ requests are answered by the library itself
+	WSAddr            string     `json:"websocket_address,omitempty"` // the WebSocket sub-scenario: a server that only speaks clear-text XMPP over WebSocket
+	Client            ClientOpts `json:"client"`
+	Conns             []c04Conn  `json:"connections"`
+	Seg               int        `json:"segmentation"`
+	LatencyNs         int64      `json:"latency_ns"`
+	SendAfterRefusal  bool       `json:"application_sends_after_a_failed_attempt,omitempty"`
+	DisconnectBetween bool       `json:"sessions_ended_by_disconnect,omitempty"`
+	NoRoutes          bool       `json:"application_registers_no_route,omitempty"` // unhandled IQ requests are answered by the library itself
 }
 
 func init() {
@@ -42,6 +45,11 @@ func runC04(e *Engine, g G, o RunOpt) RunInfo {
 	sc.Client = genClientOpts(g)
 	sc.Client.SM = false
 	sc.Client.OAuth = false
+	if g.Pct("address-host-differs", 20) {
+		// the server is reached under another host name than the domain of the account (an explicit
+		// address or an SRV target): the certificate still has to be valid for the account's domain
+		sc.Client.Address = "alt.example:5222"
+	}
 	if g.Pct("websocket-address", 10) {
 		return runC04WS(e, g, sc)
 	}
@@ -67,6 +75,8 @@ func runC04(e *Engine, g G, o RunOpt) RunInfo {
 	}
 	sc.Seg, sc.LatencyNs = netModes(g, e)
 	sc.NoRoutes = g.Bool("no-routes")
+	sc.SendAfterRefusal = g.Bool("send-after-refusal")
+	sc.DisconnectBetween = g.Pct("disconnect-between", 40)
 
 	type attempt struct {
 		err   error
@@ -111,8 +121,22 @@ func runC04(e *Engine, g G, o RunOpt) RunInfo {
 				stale = true
 			}
 			e.Sleep(200 * time.Millisecond)
+			if err != nil && sc.SendAfterRefusal {
+				// the application does not notice (or ignores) the failure and sends: there is no session,
+				// and whatever connection is left must not carry the stanza
+				e.Call("Send after the failed attempt", func() error {
+					return w.Client.Send(stanza.Message{Attrs: stanza.Attrs{Id: fmt.Sprintf("late%d", i), To: "peer@" + SimDomain}, Body: "sent without a session"})
+				})
+				e.Sleep(200 * time.Millisecond)
+			}
 			if i == len(sc.Conns)-1 {
 				break
+			}
+			if err == nil && sc.DisconnectBetween {
+				// the application ends the session itself
+				e.Call("Disconnect", w.Client.Disconnect)
+				e.Sleep(time.Duration(sc.Client.ConnectTimeout+2) * time.Second)
+				continue
 			}
 			// lose the connection (if any) before the next attempt
 			if a.conn != nil && !a.conn.Pipe.Cli.IsClosed() && a.conn.Pipe.Cli.rTerm == nil {
